@@ -172,9 +172,12 @@ class GCPBatchExecutor(Executor):
                     client=self.gcp_batch_client,  # ty: ignore[invalid-argument-type]
                     group_name=job.task_groups[0].name,
                 )
-                for array_index, task in enumerate(batch_tasks):
+                for task in batch_tasks:
                     # Skip job if it is not in one of the 'inflight' states
                     if task.status.state in inflight_task_statuses:
+                        # Use the task's own index (task names end with `/tasks/{index}`),
+                        # since the order of the task listing is not guaranteed.
+                        array_index = int(task.name.rsplit("/", 1)[-1])
                         array_job_hash = eval_hashes[array_index]
                         self.preexisting_batch_tasks[array_job_hash] = task.name
 
